@@ -121,6 +121,13 @@ def fixture_files():
     return sorted(fs)
 
 
+def corpus_files():
+    """real-world Java sources that happen to be on this machine (jfreechart, jEdit, xz-java under the Isabelle distribution of
+    tlapm; ~1800 files): used when present, never required"""
+    fs = glob.glob("/opt/veriftools/tlapm/lib/tlapm/backends/Isabelle/**/*.java", recursive=True)
+    return sorted(f for f in fs if os.path.getsize(f) < 120000)
+
+
 def rewrite(text, rng):
     """layout / comment rewrites that keep the token sequence"""
     r = rng.random()
@@ -156,6 +163,18 @@ def gen(rng, tier):
                     continue
                 sh.append({"op": "passes", "files": {"fx/" + os.path.basename(f): rewrite(txt, rng)}, "src": f})
         shards.append(sh)
+    cf = corpus_files()
+    rng.shuffle(cf)
+    pick = cf[:80] if tier == "quick" else cf
+    for i in range(0, len(pick), 120):
+        sh = []
+        for f in pick[i:i + 120]:
+            try:
+                sh.append({"op": "passes", "files": {"fx/" + os.path.basename(f): open(f, encoding="utf-8", errors="replace").read()}, "src": f})
+            except Exception:
+                continue
+        if sh:
+            shards.append(sh)
     return shards
 
 
